@@ -132,9 +132,20 @@ Pair ==
      /\ stats' = [stats EXCEPT !.observations = @ + 1, !.compared = @ + 1, !.debugOn = @ + (IF mws[e.a].debug THEN 1 ELSE 0)]
   /\ UNCHANGED <<mws, ref, cfgfp, gens>>
 
+\* Configurations named ...R are a named configuration whose first origin the caller overwrote IN PLACE with
+\* https://reused.example before passing the same Config value to Reconfigure again (MultiMC.tla, "reuse"): exactly the
+\* middlewares in such a state allow that origin.
+Reused ==
+  /\ Ev("Reused")
+  /\ LET e == Trace[l]  want == mws[e.mw].icfg \in {"AR", "BR"} IN
+     bad' = IF e.allowed = want /\ e.either = want THEN bad
+            ELSE bad \cup {<<l, "after an in-place edit of the Config and Reconfigure with the same value: the edited origin is " \o
+                                 (IF want THEN "not allowed" ELSE "allowed although the configuration was replaced")>>}
+  /\ UNCHANGED <<mws, ref, cfgfp, gens, stats>>
+
 Init == l = 1 /\ mws = EmptyFn /\ ref = EmptyFn /\ cfgfp = EmptyFn /\ gens = EmptyFn /\ bad = {}
         /\ stats = [segments |-> 0, observations |-> 0, compared |-> 0, weak |-> 0, debugOn |-> 0]
-Next == Reset \/ Skip \/ Zero \/ New \/ Reconf \/ SetDebug \/ Observe \/ Pair
+Next == Reset \/ Skip \/ Zero \/ New \/ Reconf \/ SetDebug \/ Observe \/ Pair \/ Reused
 Spec == Init /\ [][Next]_vars
 
 Final == (l = Len(Trace) + 1) =>
